@@ -293,7 +293,7 @@ func (g *c39Gen) cond(loops []c39Loop) c39Node {
 
 func (g *c39Gen) jump(encl []string) c39Node {
 	// inside a called function: name a block that only a caller has (the function boundary)
-	if nm, ok := g.foreignName(encl); ok && g.r.Intn(3) == 0 {
+	if nm, ok := g.foreignName(encl); ok && g.r.Intn(3) == 0 && encl[0] != "try" && encl[0] != "trypipe" {
 		if len(encl) >= 2 && g.r.Intn(3) == 0 {
 			return c39Node{K: "continue", Name: nm}
 		}
@@ -322,8 +322,19 @@ func (g *c39Gen) jump(encl []string) c39Node {
 		}
 		return c39Node{K: "break", Name: pick()}
 	default:
-		return c39Node{K: "return", X: g.r.Intn(10)}
+		return c39Node{K: "return", X: []int{0, 1, 3, 7, 2, 9}[g.r.Intn(6)]}
 	}
+}
+
+// the exit number of an unresolved `break` (an error, 1) is not modelled: it must not be the last
+// statement of a function body; most bodies end with whatever the generator produced, some with `out`
+func (g *c39Gen) finishBody(body []c39Node, encl []string) []c39Node {
+	last := body[len(body)-1]
+	unresolved := last.K == "break" && c39Resolve(encl, last.Name) < 0
+	if unresolved || g.r.Intn(3) == 0 {
+		body = append(body, c39Node{K: "out", T: g.tag()})
+	}
+	return body
 }
 
 func (g *c39Gen) stmt(depth int, encl []string, loops []c39Loop) c39Node {
@@ -391,7 +402,7 @@ func (g *c39Gen) stmt(depth int, encl []string, loops []c39Loop) c39Node {
 		g.outer = append(append([]string{}, encl...), g.outer...)
 		body := g.block(depth-1, []string{fmt.Sprintf("f%d", f)}, nil, 1)
 		g.outer = saved
-		body = append(body, c39Node{K: "out", T: g.tag()}) // a function body ends with `out`
+		body = g.finishBody(body, []string{fmt.Sprintf("f%d", f)})
 		return c39Node{K: "call", F: f, Body: body}
 	default:
 		return c39Node{K: "out", T: g.tag()}
@@ -401,8 +412,7 @@ func (g *c39Gen) stmt(depth int, encl []string, loops []c39Loop) c39Node {
 func c39GenProgram(r *rand.Rand, depth int, direct bool) []c39Node {
 	g := &c39Gen{r: r, direct: direct}
 	main := g.block(depth, []string{"f0"}, nil, 2)
-	main = append(main, c39Node{K: "out", T: g.tag()})
-	return main
+	return g.finishBody(main, []string{"f0"})
 }
 
 func c39Out(t int) c39Node { return c39Node{K: "out", T: t} }
@@ -467,6 +477,63 @@ func c39Boundary(r *rand.Rand) []c39Node {
 	if r.Intn(3) == 0 { // the caller is itself a function
 		f++
 		main = []c39Node{{K: "call", F: f, Body: append(main[:1:1], out())}, out()}
+	}
+	return main
+}
+
+// c39RetLast: functions (1-2 calls deep) and the program itself whose LAST statement is a block
+// that holds the `return n` (an if / switch / try, a loop ended by the return, nested 1-3 deep);
+// the call's exit number is shown by `exitnum`, the program's is its own exit number.
+func c39RetLast(r *rand.Rand) []c39Node {
+	t := 0
+	id := 0
+	out := func() c39Node { t++; return c39Out(t) }
+	var wrap func(depth int, inner []c39Node) c39Node
+	wrap = func(depth int, inner []c39Node) c39Node {
+		kinds := []string{"if", "foreach", "while", "for", "formap", "switch", "try", "trypipe", "if", "foreach", "while1"}
+		k := kinds[r.Intn(len(kinds))]
+		body := inner
+		if depth > 1 {
+			body = []c39Node{wrap(depth-1, inner)}
+		}
+		if r.Intn(2) == 0 {
+			body = append([]c39Node{out()}, body...)
+		}
+		switch k {
+		case "if":
+			return c39Node{K: "if", Cond: "true", Body: body}
+		case "switch":
+			return c39Node{K: "switch", Cond: "true", Body: body, Else: []c39Node{out()}}
+		case "try", "trypipe":
+			return c39Node{K: k, Body: body}
+		default:
+			id++
+			n := 2 + r.Intn(2)
+			// the return fires in iteration 1 or 2
+			g := c39Node{K: "if", Cond: "eq", ID: id, M: 1 + r.Intn(2), Body: body}
+			return c39Node{K: k, ID: id, N: n, Body: []c39Node{g, out()}}
+		}
+	}
+	ret := func() []c39Node {
+		x := []int{0, 1, 3, 7}[r.Intn(4)]
+		return []c39Node{{K: "return", X: x}}
+	}
+	fn := func(f int, extra []c39Node) c39Node {
+		body := []c39Node{}
+		if r.Intn(2) == 0 {
+			body = append(body, out())
+		}
+		body = append(body, extra...)
+		body = append(body, wrap(1+r.Intn(3), ret()))
+		return c39Node{K: "call", F: f, Body: body}
+	}
+	main := []c39Node{out(), fn(1, nil)}
+	if r.Intn(2) == 0 { // a second function whose last statement is ... a block whose last statement is the failing call
+		main = append(main, fn(2, []c39Node{fn(3, nil)}))
+	}
+	main = append(main, out())
+	if r.Intn(2) == 0 { // the program itself ends with such a block
+		main = append(main, wrap(1+r.Intn(2), ret()))
 	}
 	return main
 }
@@ -574,6 +641,14 @@ var c39Corpus = []c39Case{
 	{Class: "corpus", Main: []c39Node{{K: "try", Body: []c39Node{{K: "if", Cond: "true", Body: []c39Node{
 		{K: "call", F: 1, Body: []c39Node{{K: "return", X: 2}, c39Out(1)}}, c39Out(2)}}, c39Out(3)}}, c39Out(4)}},
 	{Class: "corpus", Main: []c39Node{{K: "try", Body: []c39Node{{K: "try", Body: []c39Node{c39Out(1), {K: "breakany"}, c39Out(2)}}, c39Out(3)}}, c39Out(4)}},
+	// seeded mutation C39-2: `return n` inside an if / foreach / while that is the LAST statement of the function
+	{Class: "corpus-retlast", Main: []c39Node{{K: "call", F: 1, Body: []c39Node{c39Out(1), {K: "if", Cond: "true", Body: []c39Node{{K: "return", X: 3}}}}}, c39Out(2)}},
+	{Class: "corpus-retlast", Main: []c39Node{{K: "call", F: 1, Body: []c39Node{{K: "foreach", ID: 1, N: 3, Body: []c39Node{
+		{K: "if", Cond: "eq", ID: 1, M: 2, Body: []c39Node{{K: "return", X: 5}}}, c39Out(1)}}}}, c39Out(2)}},
+	{Class: "corpus-retlast", Main: []c39Node{{K: "call", F: 1, Body: []c39Node{{K: "while", ID: 1, N: 3, Body: []c39Node{
+		c39Out(1), {K: "if", Cond: "eq", ID: 1, M: 2, Body: []c39Node{{K: "return", X: 7}}}}}}}, c39Out(2)}},
+	{Class: "corpus-retlast", Main: []c39Node{c39Out(1), {K: "if", Cond: "true", Body: []c39Node{{K: "if", Cond: "true", Body: []c39Node{{K: "return", X: 3}}}}}}},
+	{Class: "corpus-retlast", Main: []c39Node{{K: "call", F: 1, Body: []c39Node{{K: "if", Cond: "true", Body: []c39Node{{K: "return", X: 3}}}, c39Out(1)}}, c39Out(2)}},
 	// break if / break out of nested loops / return at the top level
 	{Class: "corpus", Main: []c39Node{{K: "if", Cond: "true", Body: []c39Node{c39Out(1), {K: "break", Name: "if"}, c39Out(2)}}, c39Out(3)}},
 	{Class: "corpus", Main: []c39Node{{K: "foreach", ID: 1, N: 2, Body: []c39Node{{K: "while", ID: 2, N: 3, Body: []c39Node{
@@ -598,6 +673,13 @@ func (c39) Gen(seed int64, tier string, emit func(any)) {
 	}
 	for i := 0; i < nb; i++ {
 		emit(c39Case{Main: c39Boundary(r), Class: "boundary"})
+	}
+	nr := 80
+	if tier == "thorough" {
+		nr = 600
+	}
+	for i := 0; i < nr; i++ {
+		emit(c39Case{Main: c39RetLast(r), Class: "return-last"})
 	}
 	np := 60
 	if tier == "thorough" {
